@@ -48,8 +48,11 @@ type Result struct {
 	// EagerPoints are the positions (incl. list elements) whose value went through an eager
 	// marshal FUNCTION (Tag, Tone): fault points for "the marshal function panics"
 	EagerPoints []string
-	Panics      int
-	Groups      []*Group // deferred groups started (defer-aware mode)
+	// CtxPoints are the positions whose value is written by a context-aware marshaler (Cx)
+	CtxPoints []string
+	lazyErrs  []Err
+	Panics    int
+	Groups    []*Group // deferred groups started (defer-aware mode)
 	// GroupViolation[objPath] is set when a field excused by InFailedGroup really violated non-null
 	GroupViolation map[string]bool
 	// InvalidObjects[objPath]: the object at that path is invalid because one of its OWN direct
@@ -87,6 +90,13 @@ func Execute(env *Env, doc *ast.QueryDocument, op *ast.OperationDefinition, vars
 		data = parsers.NewNull()
 	}
 	e.res.Data = data
+	// a context marshaler runs when the response is WRITTEN: its error exists only if the value
+	// is still part of the data that is written (not if an ancestor was nulled meanwhile)
+	for _, le := range e.res.lazyErrs {
+		if data.At(le.Path) != nil {
+			e.res.Errors = append(e.res.Errors, le)
+		}
+	}
 	return e.res
 }
 
@@ -458,6 +468,14 @@ func (e *exec) complete(t *ast.Type, sel ast.SelectionSet, valueKey, path string
 		if t.NamedType == "Tag" || t.NamedType == "Tone" {
 			e.res.EagerPoints = append(e.res.EagerPoints, valueKey)
 		}
+		if t.NamedType == "Cx" {
+			if p.Faults[valueKey] == KCtxMarshalErr {
+				// the context marshaler fails before it writes: null, one error at the path
+				e.res.lazyErrs = append(e.res.lazyErrs, Err{Path: path, Class: "C:error"})
+				return parsers.NewNull()
+			}
+			e.res.CtxPoints = append(e.res.CtxPoints, valueKey)
+		}
 		return p.Scalar(valueKey, t.NamedType)
 	case ast.Object:
 		v, invalid := e.selectionSet(sel, def.Name, valueKey, path)
@@ -497,7 +515,7 @@ func SortedErrs(errs []Err) []string {
 // ClassOf maps a message from a real response to the class used by the model.
 func ClassOf(msg string) string {
 	switch {
-	case strings.HasPrefix(msg, "E:"), strings.HasPrefix(msg, "D:"), strings.HasPrefix(msg, "P:"), strings.HasPrefix(msg, "A:"), strings.HasPrefix(msg, "M:"), strings.HasPrefix(msg, "O:"), strings.HasPrefix(msg, "I:"), strings.HasPrefix(msg, "R:"):
+	case strings.HasPrefix(msg, "E:"), strings.HasPrefix(msg, "D:"), strings.HasPrefix(msg, "P:"), strings.HasPrefix(msg, "A:"), strings.HasPrefix(msg, "M:"), strings.HasPrefix(msg, "O:"), strings.HasPrefix(msg, "I:"), strings.HasPrefix(msg, "R:"), strings.HasPrefix(msg, "C:"):
 		return msg
 	case strings.HasPrefix(msg, "recovered:"):
 		return strings.TrimPrefix(msg, "recovered:")
